@@ -36,6 +36,7 @@ import Driver.FdWorld
 import Driver.Alac
 import Driver.AbsWrite
 import Driver.Small4
+import Driver.Sd2
 import Driver.CrossType
 import Driver.AdpcmEnc
 open Sf
@@ -119,6 +120,7 @@ def main (args : List String) : IO UInt32 := do
   | "alac" :: rest => Driver.Alac.cmd rest
   | "abs-write" :: rest => AbsWriteDriver.cmd rest
   | "small4" :: rest => Driver.Small4.cmd rest
+  | "sd2" :: rest => Driver.Sd2.cmd rest
   | "crosstype" :: rest => CrossTypeDriver.cmd rest
   | "adpcmenc" :: rest => Driver.AdpcmEnc.cmd rest
   | _ => IO.eprintln "usage: sfmodel <g711|...> ..."; return 2
